@@ -530,6 +530,8 @@ Print Assumptions C01_run_run.""" % (STEP_STMT % "Step")) if full else ""))
                   % (" / _alternative" if use_alt else ""), rcr == 0, outr)
         if rcr == 0:
             ck.assumptions += vlib.parse_assumptions(outr)
+            ck.sample({"theorem": "C01_run_latched_primary : forall n s, wf s -> Inv (Bty fwidth) s -> no_int s -> native_of Gen.GenCpu65.Step n s -> "
+                                  "exists s', run_of Gen.GenCpu65.Step n s = Some s' /\\ wf s' /\\ spec_trace n (abs s) (mem s) (abs s') (mem s')"})
 
 
 
